@@ -60,6 +60,32 @@ Section FoldM.
     end.
 End FoldM.
 
+(* only the elements whose flag is set (used with `first_flags`: first copy of every id) *)
+Section Flagged.
+  Context {A B : Type}.
+  Variable f : A -> result B.
+  Fixpoint mapM_flagged (l : list A) (flags : list bool) : result (list B) :=
+    match l, flags with
+    | p :: r, true :: fr => do c <- f p; do cs <- mapM_flagged r fr; Ok (c :: cs)
+    | _ :: r, false :: fr => mapM_flagged r fr
+    | _, _ => Ok []
+    end.
+  Variable g : A -> list string.
+  Fixpoint flat_flagged (l : list A) (flags : list bool) : list string :=
+    match l, flags with
+    | p :: r, true :: fr => g p ++ flat_flagged r fr
+    | _ :: r, false :: fr => flat_flagged r fr
+    | _, _ => []
+    end.
+End Flagged.
+
+Fixpoint select {A} (l : list A) (flags : list bool) : list A :=
+  match l, flags with
+  | p :: r, true :: fr => p :: select r fr
+  | _ :: r, false :: fr => select r fr
+  | _, _ => []
+  end.
+
 (* ---- attributes *)
 Definition dedup_str (l : list string) : list string := dedup_key (fun x => x) l [].
 
@@ -273,13 +299,7 @@ Fixpoint load_sig (ev : env) (ps : PSignal) : result sig :=
           else if gsize <? 0 then Err Negative
           else if gsize =? 0 then Err IsZero
           else
-            do children <-
-               (fix load_children (l : list PSignal) (flags : list bool) : result (list sig) :=
-                  match l, flags with
-                  | p :: r, true :: fr => do c <- load_sig ev p; do cs <- load_children r fr; Ok (c :: cs)
-                  | _ :: r, false :: fr => load_children r fr
-                  | _, _ => Ok []
-                  end) psigs (first_flags (map psig_key psigs) []);
+            do children <- mapM_flagged (load_sig ev) psigs (first_flags (map psig_key psigs) []);
             do st <- mux_load_groups ev count gsize children fixed 0
                                      (repeat [] (Z.to_nat count), []) pgroups;
             do asg <- load_assigns (ev_attrs ev) pattrs;
@@ -418,13 +438,7 @@ Fixpoint psig_ids (ps : PSignal) : list string :=
   | PSig pent _ _ _ _ pbody =>
       pent_ids pent ++
       match pbody with
-      | PSBMux psigs _ _ _ _ =>
-          (fix go (l : list PSignal) (flags : list bool) : list string :=
-             match l, flags with
-             | p :: r, true :: fr => psig_ids p ++ go r fr
-             | _ :: r, false :: fr => go r fr
-             | _, _ => []
-             end) psigs (first_flags (map psig_key psigs) [])
+      | PSBMux psigs _ _ _ _ => flat_flagged psig_ids psigs (first_flags (map psig_key psigs) [])
       | _ => []
       end
   end.
